@@ -497,7 +497,7 @@ static Disj rnd_grid_disj(Rng& r, const Case& c) {
   Coefficient P = pow2c(c.w);
   for (dimension_type i = 0; i < n; ++i) {
     std::vector<long> a(n, 0);
-    unsigned k = r.below(12);
+    unsigned k = r.below(18);
     Coefficient off = r.range(-3, 3);
     if (r.chance(1, 2)) off += (P / 256) * r.range(-600, 600);
     if (k < 2) continue;                                          // unconstrained
@@ -509,8 +509,18 @@ static Disj rnd_grid_disj(Rng& r, const Case& c) {
     else if (k < 8) d.cgs.push_back(mk_cg(P * 2, -off, a));
     else if (k < 9) d.cgs.push_back(mk_cg(P - 1, -off, a));
     else if (k < 10) d.cgs.push_back(mk_cg(r.range(1, 7), -off, a));
-    else { if (n >= 2) { dimension_type b = r.below(n); if (b != i) a[b] = r.chance(1, 2) ? 1 : -1; }
+    else if (k < 11) { if (n >= 2) { dimension_type b = r.below(n); if (b != i) a[b] = r.chance(1, 2) ? 1 : -1; }
            d.cgs.push_back(mk_cg(r.chance(1, 2) ? Coefficient(0) : Coefficient(r.range(1, 5)), -off, a)); }
+    // frequencies above 2^w that are not multiples of it: the points v + k*f of different quadrants wrap
+    // to different residues (257, 300, 384, 513, 65537, ... and multiples of 2^w as well)
+    else if (k < 12) d.cgs.push_back(mk_cg(P + 1, -off, a));
+    else if (k < 13) d.cgs.push_back(mk_cg(P + (P / 256) * 44, -off, a));                 // 300 for 8 bits
+    else if (k < 14) d.cgs.push_back(mk_cg(r.chance(1, 2) ? Coefficient(3 * P) : Coefficient(2 * P + 1), -off, a));
+    else if (k < 15) d.cgs.push_back(mk_cg(P + P / 2, -off, a));                          // 384
+    else if (k < 17) d.cgs.push_back(mk_cg(P + (P / 256) * r.range(1, 3 * 256) + r.range(0, 3), -off, a));
+    else { // x tied to another variable that has a frequency above 2^w
+      if (n >= 2) { dimension_type b = (i + 1) % n; a[b] = r.chance(1, 2) ? 1 : -1; }
+      d.cgs.push_back(mk_cg(P + r.range(1, 200), -off, a)); }
   }
   return d;
 }
@@ -628,8 +638,12 @@ static const char* PLANTED[] = {
   "W G 2 1 1 8 u w 0 6 0 1 c 0 1 0 2 1 1",                              // A + B = -2, B wrapped (no frequency)
   "Q N 1 1 c 2 > -1 4 > 3 -4 0",                                        // 1/4 < A < 3/4
   "W ZB 1 1 0 8 u u 0 16 0 1 c 2 >= -250 1 >= 256 -1 0",                // [250,256], overflow undefined
+  // frequency above 2^w, overflow wraps: the points of the other quadrants wrap to other residues
+  "W G 1 1 0 8 u w 0 16 0 1 c 0 1 300 0 1",                             // x = 0 mod 300
+  "W G 1 1 0 8 s w 0 16 0 1 c 0 1 257 -5 1",                            // x = 5 mod 257, signed
+  "W G 2 1 1 16 u w 0 16 0 1 c 0 2 65537 -7 0 1 0 0 1 0",               // y = 7 mod 65537, x = 0
 };
-static const int NPLANTED = 12;
+static const int NPLANTED = 15;
 
 // shared with the parent: index of the case being executed (so that a batch is resumed after a crash)
 static volatile long* g_progress = 0;
